@@ -1114,7 +1114,7 @@ def run(ctx):
 
     # ---------------------------------------------------------------- 4. coarse-graining maps
     ops, meta = [], []
-    for i in range(ctx.n(600, 10000)):
+    for i in range(ctx.n(400, 10000)):
         shape, im, env, fault = gen_index_map(rng)
         meta.append((shape, im, env, fault))
         ops.append({"op": "validate", "kind": "index_map", "im": [v if type(v) is int else None for v in im], "env": env})
@@ -1130,7 +1130,7 @@ def run(ctx):
         # the same map through every other entry point that takes one (valid maps: the two cheap ones only)
         if len(env) == shape[0] * shape[1] * shape[2]:
             for entry in (ENTRY_POINTS if inv else ENTRY_POINTS[:2]):
-                if inv and entry.startswith("simulate") and rng.random() < 0.5:
+                if inv and entry.startswith("simulate") and rng.random() < (0.7 if ctx.tier == "quick" else 0.5):
                     continue
                 g2 = run_index_map_entry(shape, im, env, entry)
                 ctx.count("indexmap_%s_%s" % (entry, "invalid" if inv else "valid"))
